@@ -1,15 +1,15 @@
 \* C14 as-built specification, state graph exported for replay
 SPECIFICATION Spec
 CONSTANTS
-  N = 2
-  Catalogue = "small"
-  Relations = {"none", "parent", "dep", "group", "gd"}
+  N = 1
+  Catalogue = "domain"
+  Relations = {"none"}
   MaxSet = 1
   MaxWrite = 2
   Validates = {FALSE, TRUE}
   SetClass = "all"
-  MaxEdit = 0
-  MaxAssign = 0
+  MaxEdit = 1
+  MaxAssign = 2
   UpdEnabled = {TRUE}
   Deviations = {"EmptyStrAsNone", "InfTextAsFloat", "UuidTextAsId", "NoneMemberAsText", "IsValueFlipOnNone", "FileFormRejectsWorkspace", "GroupPropagation"}
 VIEW vw
